@@ -255,4 +255,14 @@ def run_case(ctx, case):
     if t2.replace("\r\n", "\n") != text.replace("\r\n", "\n"):
         o.cls = "diff"
         o.viol("rewrite|text-differs", "write(read(write(x))) differs from write(x)")
+    if sink == "path":
+        # the text a path write leaves on disk (CRLF line ends), handed to the reader as a stream that does not translate line ends
+        try:
+            g3 = Bf3File.read_file(io.StringIO(text), check_cmac, **kw)
+            if g3.comments != g.comments or [shapes.view_component(c) for c in g3.components] != got:
+                o.viol("read|path-text-via-stream-differs", "the text written to a path reads differently through a stream")
+        except Exception as e:
+            o.cls = "reader-rejects"
+            o.viol("read|path-text-via-stream|%s" % type(e).__name__, "the text written to a path (CRLF line ends) is rejected when read through "
+                   "a stream: %r" % e)
     return o
